@@ -221,8 +221,8 @@ CHECKS = {
 }
 
 NOT_APPLICABLE = {
-    "C04": "Convergence quantifies over message delivery orders between 2-3 processes; no contract on one call can state it and the code that forwards/fans out is the dyn-Fn dispatcher and async loops neither verifier accepts.",
+    "C04": "Convergence quantifies over message delivery orders between 2-3 processes and over operations submitted to ANY node; no contract on one call can state it. The per-call facts it would be built from are decided where they belong (unit outbox: an accepted write leaves the node as exactly its own line, a refused one leaves nothing; unit pending: an operation is handed to exactly the other members; bounded family replica: a primary's lines applied in order on a secondary leave the same values - listed under C19 / C02 / C05), but the property itself - every node, every delivery order, forwarding from secondaries (the sweep even shows that a remove accepted by a secondary is never handed to the primary) - is a protocol-level statement outside this family.",
     "C11": "The statement quantifies over kill instants INSIDE the writes of a snapshot: the unit of durability is the flush of three independent 250-byte BufWriters, which cuts records at arbitrary byte boundaries, next to unbuffered in-place overwrites. A crash invariant at the granularity of whole file operations IS expressible with contracts (it is what unit oplogflag proves for C16), but here it would not be the property: between flushes the on-disk image is a byte-level interleaving no per-call contract of these functions describes, and by reading the current code does not keep the stated guarantee at that granularity (DESIGN section 10, observation b: an in-place key update can name a value record that is still in a buffer). Claiming it would mean a model of the OS write path, not contracts on this code.",
-    "C14": "A bound on inter-node traffic is a global ranking argument over the dispatcher and the replication loop on several nodes.",
+    "C14": "A bound on inter-node traffic followed by silence is a global ranking argument over the dispatcher and the replication loop on several nodes. Its per-call ingredients are proved elsewhere and listed there (unit outbox: a command puts at most one line on the replication channel and a refused one none; unit pending: the fan-out hands an operation to each other member once), but 'no self-sustaining exchange' relates the handlers of different nodes to each other and has no contract on one call.",
     "C18": "Both S3 strategies are async AWS-SDK network code inside a tokio runtime.",
 }
